@@ -290,6 +290,24 @@ func runCtrlScenario(t *testing.T, tr *tracer, idx int, seed uint64, mode string
 				}
 			case x < 85:
 				w.step("advance-small", func() { w.advance(100 * time.Millisecond) })
+			case x < 89 && w.period < 1000*time.Hour && w.listFaultAt == 0:
+				// a relist racing with in-flight watch events: hold the next list at the server, change the
+				// server (deletes followed by re-creations included), then let the list return the new state
+				// while those events are still travelling through session, watcher and controller
+				gate := make(chan struct{})
+				w.step("gate-relist", func() {
+					w.srv.Mu(func() { w.srv.ListGate = gate })
+					w.advance(w.period + w.period/6)
+				})
+				w.step("race-relist", func() {
+					tr.line(kv.L("burst-begin"))
+					for j := 3 + r.Intn(6); j > 0; j-- {
+						w.srvEvent()
+					}
+					w.srv.Mu(func() { w.srv.ListGate = nil })
+					close(gate)
+					tr.line(kv.L("burst-end"))
+				})
 			case x < 93:
 				// a burst and, at once, the end of the stream
 				w.step("burst-close", func() {
